@@ -686,8 +686,32 @@ def run_file_comments(ctx, case):
             w_.add_block(specs.build(labelled_spec("platCal", 1)), "behind it: two \u20ac")
         others = {reftdf.TYPE_CODE["optical"]: "behind it: one", reftdf.TYPE_CODE["platCal"]: "behind it: two \u20ac"}
 
+        # what an acquisition program leaves in the file: behind the terminators of the two bystander comments lies the rest of an older, longer text
+        raw_ = bytearray(open(path, "rb").read())
+        for slot_, text_ in ((1, "behind it: one"), (2, "behind it: two \u20ac")):
+            pos_ = 64 + 288 * slot_ + 32 + len(cp1252.encode(text_)) + 1
+            end_ = 64 + 288 * (slot_ + 1)
+            raw_[pos_:end_] = (b"\xe9 rest of an older, longer comment #" * 8)[:end_ - pos_]
+        with open(path, "wb") as fh_:
+            fh_.write(bytes(raw_))
+        from basictdf.basictdf import TdfEntry
+
+        for slot_, text_ in ((1, "behind it: one"), (2, "behind it: two \u20ac")):
+            # an entry read and written again with nothing looked at in between: text, NUL, zeros
+            out_ = io.BytesIO()
+            TdfEntry._build(io.BytesIO(bytes(raw_[64 + 288 * slot_:64 + 288 * (slot_ + 1)])))._write(out_)
+            if out_.getvalue()[32:] != cp1252.field(text_, 256):
+                ctx.fail("file-comment/entry-rewritten/not-zero-padded", f"a table entry whose comment field held {text_!r}, a NUL and left-over bytes was read and written again: "
+                                                                         f"the field is not the text followed by zeros")
+
         def by_type(where):
-            got = {e["type"]: e["comment"] for e in reftdf.parse_container(open(path, "rb").read())["entries"] if e["type"]}
+            parsed_ = reftdf.parse_container(open(path, "rb").read())
+            if where != "add":
+                for e in parsed_["entries"]:
+                    if e["type"] in others and e["comment_raw"] != cp1252.field(others[e["type"]], 256):
+                        ctx.fail(f"file-comment/{where}/rewritten-comment-not-zero-padded", f"{where}: the entry of the {reftdf.CODE_TYPE[e['type']]} block was written again (it moved "
+                                                                                            f"up a slot); its comment field is not {others[e['type']]!r} followed by zeros")
+            got = {e["type"]: e["comment"] for e in parsed_["entries"] if e["type"]}
             for code, want in others.items():
                 if got.get(code) != want:
                     ctx.fail(f"file-comment/{where}/bystander-comment-changed", f"{where}: the comment of the {reftdf.CODE_TYPE[code]} block, which was not touched, reads "
